@@ -27,6 +27,7 @@ def step (_ : Unit) (ws : List String) : Unit × String :=
   | "del" :: _ => ((), "ok")
   | "hs" :: _ => ((), "ok")
   | "applied" :: _ => ((), "ok")
+  | "snap" :: _ => ((), "ok")          -- a snapshot is registered: the log specification is not concerned
   | _ => ((), "bad-op")
 
 structure Snap where
@@ -128,6 +129,7 @@ def specStep (s : SpecSt) (ws : List String) : SpecSt × String :=
     | ["del", k] => (pushHist { s0 with store := deleteFrom s.store (n k) }, "-")
     | ["hs", t, v] => (pushHist { s0 with hs := (n t, n v) }, "-")
     | ["applied", k] => (pushHist { s0 with applied := n k }, "-")
+    | ["snap", _] => (pushHist s0, if ans == ["ok"] then "spec ok" else "spec FAIL a snapshot cannot be registered")
     | "reenum" :: _ =>
       -- a recorded journal: every prefix must open and stay usable
       let parts := (splitParts ans [] []).drop 1
